@@ -135,10 +135,9 @@ Variable semc : sctx -> cmd -> sst -> sres.
 Definition errexit_stmt (neg : bool) (c : cmd) : bool :=
   negb neg && negb (is_andor c) && negb (is_compound c).
 
-Definition sem_stmt (k : sctx) (t : stmt) (ss : sst) : sres :=
-  let '(Stmt neg c) := t in
-  let k1 := if neg then mkK (inl k) (infn k) true else k in
-  let '(ss1, code, r) := semc k1 c ss in
+(* what a statement makes of the result of its command: negation, errexit, $? *)
+Definition stmt_post (k : sctx) (neg : bool) (c : cmd) (res : sres) : sres :=
+  let '(ss1, code, r) := res in
   let fires code := errexit_stmt neg c && negb (code =? 0) && negb (noerr k) && serrexit ss1 in
   match r with
   | OAbort why => (ss1, code, OAbort why)
@@ -155,6 +154,11 @@ Definition sem_stmt (k : sctx) (t : stmt) (ss : sst) : sres :=
       let code' := if neg then (if code =? 0 then 1 else 0) else code in
       (s_set_last code' ss1, code', r)
   end.
+
+Definition sem_stmt (k : sctx) (t : stmt) (ss : sst) : sres :=
+  let '(Stmt neg c) := t in
+  let k1 := if neg then mkK (inl k) (infn k) true else k in
+  stmt_post k neg c (semc k1 c ss).
 
 Fixpoint sem_stmts (k : sctx) (l : list stmt) (ss : sst) : sres :=
   match l with
